@@ -208,6 +208,13 @@ func c02Mutate(r *Rng, prev PolicySpec) (PolicySpec, string) {
 }
 
 func c02Case(t *testing.T, id int, seed uint64, out *Out) {
+	b, qs, meta := c02Build(t, seed)
+	emitWitness(t, out, "C02", id, b, qs, meta)
+}
+
+// c02Build: a chain of policy states (valid and forged successors), pushes in between, some
+// policy updates inside recovery windows; also used by C08 (forged policy entries under a cache)
+func c02Build(t *testing.T, seed uint64) (*WorldBuilder, []VQuery, string) {
 	r := NewRng(seed)
 	b := NewWorldBuilder(t)
 	main := "refs/heads/main"
@@ -271,5 +278,5 @@ func c02Case(t *testing.T, id int, seed uint64, out *Out) {
 	}
 	qs := []VQuery{{Mode: "full", Ref: main}, {Mode: "latest", Ref: main}}
 	qs = append(qs, VQuery{Mode: "from", Ref: main, From: pushes[r.Intn(len(pushes))]})
-	emitWitness(t, out, "C02", id, b, qs, meta+fmt.Sprintf("seed=%d", seed))
+	return b, qs, meta + fmt.Sprintf("seed=%d", seed)
 }
